@@ -61,7 +61,9 @@ func init() {
 		if err != nil {
 			return map[string]interface{}{"err": err.Error()}
 		}
-		return map[string]interface{}{"mac": hx(mac), "nilmac": mac == nil}
+		out := map[string]interface{}{"mac": hx(mac), "nilmac": mac == nil}
+		retain(out, "nia", mac)
+		return out
 	}
 	lineCmds["nea1raw"] = func(in map[string]interface{}) map[string]interface{} {
 		key := neaKey(in)
